@@ -71,8 +71,12 @@ def run_tlc(module, cfg_text, workdir, out_path, timeout, workers=None, extra=No
     meta = os.path.join(workdir, 'meta_' + os.path.basename(cfg))
     cmd = ['timeout', str(timeout), 'tlc', '-noGenerateSpecTE', '-workers', str(workers or NPROC), '-metadir', meta, '-config', cfg] + (extra or []) + [module + '.tla']
     t0 = time.time()
+    jtmp = os.path.join(workdir, 'jtmp')
+    os.makedirs(jtmp, exist_ok=True)
+    env = dict(os.environ, JAVA_TOOL_OPTIONS=(os.environ.get('JAVA_TOOL_OPTIONS', '') + ' -Djava.io.tmpdir=' + jtmp).strip())
     with open(out_path, 'w') as fh:
-        r = subprocess.run(cmd, cwd=SPEC, stdout=fh, stderr=subprocess.STDOUT)
+        r = subprocess.run(cmd, cwd=SPEC, stdout=fh, stderr=subprocess.STDOUT, env=env)
+    shutil.rmtree(jtmp, ignore_errors=True)
     shutil.rmtree(meta, ignore_errors=True)
     res = dict(rc=r.returncode, wall=time.time() - t0, states=0, distinct=0, violated=[], errors=[])
     tail = []
